@@ -140,11 +140,17 @@ def r1_record_keys(chk: Check):
                     chk.loc(lo.module, lo.node))
     for k, attr in RESTORE_INSTANCE.items():
         stores = [(t, v, s) for t, v, s in attr_stores(lo.node) if t.attr == attr and v is not None]
-        ok = any(f"'{k}'" in src(v) or f'"{k}"' in src(v) for t, v, s in stores)
+        ok = any(f"'{k}'" in rdl.canon(v, n) for t, v, s in stores for n in gl.nodes_of(t))
         chk.require(ok, f"core.objects:ConfigInformation.load_objects:restores {k} (instance)", f"record key `{k}` is not restored into `{attr}` when loading instances", chk.loc(lo.module, lo.node))
     # fields: every field goes through set(name, v, bypass=True) / setattr
-    loops = [x for x in body_walk(lo.node) if isinstance(x, ast.For) and "['fields']" in src(x.iter) or isinstance(x, ast.For) and '["fields"]' in src(x.iter)]
-    ok = len(loops) == 1 and any(isinstance(c, ast.Call) and src(c.func).endswith("__xpm__.set") for c in walk_local(loops[0])) and any(isinstance(c, ast.Call) and dotted(c.func) == "setattr" for c in walk_local(loops[0]))
+    loops = [n.ast for n in gl.live if n.kind == "for" and "['fields']" in rdl.canon(n.ast.iter, n)]
+
+    def is_setter(c, n):
+        return isinstance(c, ast.Call) and ((isinstance(c.func, ast.Attribute) and c.func.attr == "set" and rdl.canon(c.func.value, n).endswith(".__xpm__")) or dotted(c.func) == "setattr")
+
+    inloop = lambda n, lp: any(x is n.stmt or x is n.ast for x in ast.walk(lp))
+    ok = len(loops) == 1 and any(is_setter(c, n) and dotted(c.func) != "setattr" for n in gl.live if inloop(n, loops[0]) for c in n.calls()) \
+        and any(dotted(c.func) == "setattr" for n in gl.live if inloop(n, loops[0]) for c in n.calls())
     chk.require(ok, "core.objects:ConfigInformation.load_objects:restores fields", "every written field must be restored (configuration: __xpm__.set(..., bypass=True); instance: setattr)", chk.loc(lo.module, lo.node))
     if len(loops) == 1:
         chk.require(not any(isinstance(x, (ast.Continue, ast.Break)) for x in ast.walk(loops[0])), "core.objects:ConfigInformation.load_objects:no skipped field", "the field loop of the loader skips some fields", chk.loc(lo.module, loops[0]))
@@ -152,7 +158,7 @@ def r1_record_keys(chk: Check):
         if heads:
             h = heads[0]
             start = [m for m, l in h.succ if l == "loop"][0]
-            setters = [n for n in gl.live if any((src(c.func).endswith("__xpm__.set") or dotted(c.func) == "setattr") for c in n.calls())]
+            setters = [n for n in gl.live if any(is_setter(c, n) for c in n.calls())]
             chk.require(_must_pass_noexc(gl, start, h, setters), "core.objects:ConfigInformation.load_objects:every field restored",
                         "some path through the loader's field loop restores nothing for a written field (e.g. a None value is skipped): an optional parameter explicitly set to None "
                         "would come back holding its declared default, and the recomputed identifier differs", chk.loc(lo.module, loops[0]))
